@@ -1,10 +1,15 @@
 //! Table of properties; `with_prop!` dispatches a generic closure-like block on the id.
 use crate::props::seqexact::SeqExact;
+use crate::bits::BitsKind;
+use crate::props::bitsprops::BitsProp;
 use crate::trees::TreeKind;
 
 pub const C01: SeqExact = SeqExact { id: "C01", kinds: &TreeKind::QUAD_PLAIN };
 pub const C02: SeqExact = SeqExact { id: "C02", kinds: &TreeKind::QUAD_HUFF };
 pub const C03: SeqExact = SeqExact { id: "C03", kinds: &TreeKind::BINARY };
+
+pub const C06: BitsProp = BitsProp { id: "C06", kinds: &[BitsKind::Narrow, BitsKind::Wide] };
+pub const C07: BitsProp = BitsProp { id: "C07", kinds: &[BitsKind::Da0, BitsKind::Da1] };
 
 #[macro_export]
 macro_rules! with_prop {
@@ -13,6 +18,8 @@ macro_rules! with_prop {
             "C01" => { let $p = &$crate::registry::C01; $body }
             "C02" => { let $p = &$crate::registry::C02; $body }
             "C03" => { let $p = &$crate::registry::C03; $body }
+            "C06" => { let $p = &$crate::registry::C06; $body }
+            "C07" => { let $p = &$crate::registry::C07; $body }
             other => {
                 eprintln!("unknown property {other}");
                 std::process::exit(2);
